@@ -709,10 +709,11 @@ func vaCheckFetch(w *vaWorld, eng *GruleEngine, res vaFetch, first int) {
 		case evW:
 			wCount[e.rule]++
 			out[e.rule] = e.out
-			if e.out >= outNonBool && failed < 0 {
+			if e.out >= outNonBool && failed < 0 && !w.deleted[e.rule] {
 				failed = e.rule
 			}
 			verif.Assert("C16:removed-rule-not-evaluated", !w.deleted[e.rule])
+			verif.Assert("C11:removed-rule-not-evaluated", !w.deleted[e.rule])
 		case evT:
 			nT++
 		}
